@@ -4,6 +4,7 @@
 import GeonumModel.Lemmas.AngleNewTotal
 import GeonumModel.Lemmas.RawTotal
 import GeonumModel.Lemmas.FloatNewNeg
+import GeonumModel.Lemmas.FloatCartesian
 import GeonumModel.Spec.RealWitness
 import GeonumModel.Lemmas.Exact
 import GeonumModel.Lemmas.ExactAdd
@@ -108,6 +109,56 @@ theorem new_blade_float {p d : F} (hp : Fin p) (hd : Fin d) (hpb : |val p| ≤ 1
     (hhi : val p * piV F / val d + (val (e10 : F) + val p * piV F / val d * (8 / 2 ^ 53) + 1 / 2 ^ 1070) ≤ ((n : ℝ) + 1) * val (qp : F)) :
     (Angle.new p d).blade = n :=
   Angle.new_blade_float hp hd hpb hdl hq hp0 hd0 n hlo hhi
+
+/-- (B) **the repaired Cartesian constructor keeps the length of every finite vector** (fix 9118133): whenever the rescaled branch is taken
+    — the sum of squares is not a normal number, i.e. components below ~1.5e-154 or above ~1.3e154 — the magnitude
+    `s·√((x/s)² + (y/s)²)`, `s = max(|x|,|y|)`, is finite and equals the true length `√(x² + y²)` to within `11·2⁻⁵³` relative plus the
+    subnormal absolute error `2⁻¹⁰⁷⁵`, for `0 < s ≤ 1e120` (the contract's `InRange` is asserted up to `1e250`); before the fix the same inputs
+    gave `0` resp. `inf`.  In the other branch the magnitude is the unchanged `√(x·x + y·y)` (`geonum_ctors`). -/
+theorem newFromCartesian_rescaled_float {x y : F} (hx : Fin x) (hy : Fin y) (hs0 : 0 < max |val x| |val y|)
+    (hs1 : max |val x| |val y| ≤ 10 ^ 120)
+    (hbr : (FloatLike.isNormal (fadd (fmul x x) (fmul y y)) || feq (fmax (fabs x) (fabs y)) zero
+          || !(FloatLike.isFinite (fmax (fabs x) (fabs y)))) = false) :
+    Fin (Geonum.newFromCartesian x y).mag ∧
+    |val (Geonum.newFromCartesian x y).mag - Real.sqrt (val x * val x + val y * val y)|
+      ≤ Real.sqrt (val x * val x + val y * val y) * (11 * (1 / 2 ^ 53)) + 1 / 2 ^ 1075 := by
+  have hm : (Geonum.newFromCartesian x y).mag =
+      (if FloatLike.isNormal (fadd (fmul x x) (fmul y y)) || feq (fmax (fabs x) (fabs y)) zero
+          || !(FloatLike.isFinite (fmax (fabs x) (fabs y))) then sqrt (fadd (fmul x x) (fmul y y))
+       else fmul (fmax (fabs x) (fabs y)) (sqrt (fadd
+          (fmul (fdiv x (fmax (fabs x) (fabs y))) (fdiv x (fmax (fabs x) (fabs y))))
+          (fmul (fdiv y (fmax (fabs x) (fabs y))) (fdiv y (fmax (fabs x) (fabs y))))))) := rfl
+  rw [hm, hbr]
+  simp only [Bool.false_eq_true, if_false]
+  exact Geonum.rescaled_mag_float hx hy hs0 hs1
+
+/-- (B) **the magnitude of `Geonum::new_from_cartesian` in rounded arithmetic, every finite non-zero vector** (`max(|x|,|y|) ≤ 1e120`,
+    both branches of the repaired code): finite, and the true length `√(x² + y²)` to within `11·2⁻⁵³` relative plus `2⁻¹⁰⁷⁵` -/
+theorem newFromCartesian_mag_float {x y : F} (hx : Fin x) (hy : Fin y) (hs0 : 0 < max |val x| |val y|)
+    (hs1 : max |val x| |val y| ≤ 10 ^ 120) :
+    Fin (Geonum.newFromCartesian x y).mag ∧
+    |val (Geonum.newFromCartesian x y).mag - Real.sqrt (val x * val x + val y * val y)|
+      ≤ Real.sqrt (val x * val x + val y * val y) * (11 * (1 / 2 ^ 53)) + 1 / 2 ^ 1075 := by
+  by_cases hn : FloatLike.isNormal (fadd (fmul x x) (fmul y y)) = true
+  · have hm : (Geonum.newFromCartesian x y).mag = sqrt (fadd (fmul x x) (fmul y y)) := by
+      show (if FloatLike.isNormal (fadd (fmul x x) (fmul y y)) || feq (fmax (fabs x) (fabs y)) zero
+          || !(FloatLike.isFinite (fmax (fabs x) (fabs y))) then sqrt (fadd (fmul x x) (fmul y y)) else _) = _
+      simp [hn]
+    rw [hm]
+    obtain ⟨hf, h⟩ := Geonum.direct_mag_float hx hy (le_trans (le_max_left _ _) hs1) (le_trans (le_max_right _ _) hs1) hn
+    refine ⟨hf, le_trans h ?_⟩
+    have : 0 ≤ Real.sqrt (val x * val x + val y * val y) := Real.sqrt_nonneg _
+    nlinarith
+  · obtain ⟨hfax, hvax⟩ := fabs_spec hx
+    obtain ⟨hfay, hvay⟩ := fabs_spec hy
+    obtain ⟨hfs, hvs⟩ := fmax_spec hfax hfay
+    rw [hvax, hvay] at hvs
+    have hz : feq (fmax (fabs x) (fabs y)) (zero : F) = false := by
+      rw [Bool.eq_false_iff]; intro h
+      have := (feq_spec hfs fin_zero).mp h
+      rw [hvs, val_zero] at this; linarith
+    have hfin := isFinite_spec hfs
+    exact newFromCartesian_rescaled_float hx hy hs0 hs1 (by simp [hn, hz, hfin])
 
 /-- (B) **a negative `p/d` in rounded arithmetic** (general path — any divisor, any sign combination with `p/d < 0`): the result is canonical
     and its float total is `X = p·π_f/d` plus a whole number `n` of turns, to within the `1e-10` snap plus `(14·|X| + 46)·2⁻⁵³`: the same
